@@ -83,10 +83,19 @@ def gen_params(rng: random.Random, idx, tier="quick", profile="mixed", force=Non
         "produce_until": 0.0,      # filled below
         "compaction_gaps": rng.random() < 0.3,
         "initial_committed": rng.random() < 0.25,
+        # transactional traffic in the logs (committed and aborted transactions of a few producer ids, markers);
+        # read_committed members must skip aborted data and control batches without losing what follows
+        "isolation": "read_uncommitted",
+        "txn_traffic": False,
         "preloaded": rng.choice([0, 5, 20]),
         "quiet_after": 0.0,        # filled below
         "n_brokers": 3,
     }
+    r = rng.random()
+    if r < 0.3:
+        P["isolation"], P["txn_traffic"] = "read_committed", True
+    elif r < 0.45:
+        P["txn_traffic"] = True
     # A JoinGroup stays parked at the coordinator for up to the rebalance timeout, and the library sends it with the
     # plain request timeout: as with the defaults (40 s vs 10 s) the request timeout must exceed the rebalance
     # timeout, otherwise every slow rebalance is abandoned by the client just before it completes.
@@ -216,8 +225,37 @@ def run_history(P):
     cl.faults = plan
     uid_n = {}
 
+    iso = 1 if P.get("isolation") == "read_committed" else 0
+    txn_pids = [9001, 9002, 9003]
+    txn_seq = {}
+
+    def append_marker(pl, pid, commit, now):
+        pl.append_raw(rr.encode_control_batch(pl.leo, pid, 0, commit, 1_650_000_000_000 + pl.leo), now)
+
+    def close_open_txns(now):
+        for logs in cl.topics.values():
+            for pl in logs:
+                for pid in list(pl.open_txns):
+                    append_marker(pl, pid, rng.random() < 0.5, now)
+
     def append_record(topic, p, now):
         pl = cl.plog(topic, p)
+        if P.get("txn_traffic"):
+            r = rng.random()
+            if r < 0.25 and pl.open_txns:
+                append_marker(pl, rng.choice(sorted(pl.open_txns)), rng.random() < 0.5, now)
+                return
+            if r < 0.6:
+                pid = rng.choice(txn_pids)
+                n = rng.choice([1, 2, 3])
+                base = pl.leo
+                seq = txn_seq.get((topic, p, pid), 0)
+                txn_seq[(topic, p, pid)] = seq + n
+                recs = [(i, 1_650_000_000_000 + base + i, None, b"uid:%s.%d.%d|" % (topic.encode(), p, base + i), [])
+                        for i in range(n)]
+                pl.append_raw(rr.encode_batch_v2(recs, base_offset=base, pid=pid, epoch=0, base_seq=seq, transactional=True,
+                                                 last_offset_delta=n - 1), now)
+                return
         n = 1 if not P["compaction_gaps"] else rng.choice([1, 2, 3])
         base = pl.leo
         keep = list(range(n))
@@ -232,6 +270,7 @@ def run_history(P):
         for p in range(n):
             for _ in range(P["preloaded"]):
                 append_record(t, p, 0.0)
+    close_open_txns(0.0)
     if P["initial_committed"]:
         g = cl.gc.group(GROUP)
         for t, n in P["topics"].items():
@@ -294,7 +333,8 @@ def run_history(P):
                 rebalance_timeout_ms=P["rebalance_timeout_ms"], request_timeout_ms=P["request_timeout_ms"],
                 retry_backoff_ms=P["retry_backoff_ms"], metadata_max_age_ms=P["metadata_max_age_ms"],
                 partition_assignment_strategy=tuple(strategies), fetch_max_wait_ms=P["fetch_max_wait_ms"],
-                max_partition_fetch_bytes=P["max_partition_fetch_bytes"])
+                max_partition_fetch_bytes=P["max_partition_fetch_bytes"],
+                isolation_level=P.get("isolation", "read_uncommitted"))
             inc["cons"] = cons
             sub = inc["sub"]
             if "pattern" in sub:
@@ -399,6 +439,7 @@ def run_history(P):
                 t = rng.choice(sorted(cl.topics))
                 p = rng.randrange(len(cl.topics[t]))
                 append_record(t, p, loop.time())
+            close_open_txns(loop.time())
 
         async def scripted():
             for a in P["script"]:
@@ -474,7 +515,7 @@ def run_history(P):
         drain_bound = bound + 0.05 * sum(pl.leo for logs in cl.topics.values() for pl in logs) * max(1, P["proc_delay"] * 20)
         t_d = loop.time()
         while loop.time() - t_d < drain_bound:
-            if all_drained(cl, ev, state):
+            if all_drained(cl, ev, state, iso):
                 break
             await asyncio.sleep(0.25)
         H["t_drained"] = loop.time() - t0
@@ -539,7 +580,7 @@ def run_history(P):
     H["truth"] = {}
     for t, logs in cl.topics.items():
         for pl in logs:
-            H["truth"][f"{t}:{pl.partition}"] = {"visible": [(o, C.uid_of(r.value)) for (o, r, _sb) in pl.visible_records(0)],
+            H["truth"][f"{t}:{pl.partition}"] = {"visible": [(o, C.uid_of(r.value)) for (o, r, _sb) in pl.visible_records(iso)],
                                                  "leo": pl.leo, "log_start": pl.log_start}
     H["fault_hits"] = dict(plan.hits)
     H["sticky_nonterminating"] = stickyguard.STATS["nonterminating"] - sticky_before
@@ -573,7 +614,7 @@ def snapshot(cl, state, P):
     return out
 
 
-def all_drained(cl, ev, state):
+def all_drained(cl, ev, state, iso=0):
     """True when every visible record of every partition owned by a live member has been delivered to someone."""
     delivered = {}
     for e in ev:
@@ -593,7 +634,7 @@ def all_drained(cl, ev, state):
         if pl is None:
             continue
         got = delivered.get((t, p), set())
-        for (o, _r, _sb) in pl.visible_records(0):
+        for (o, _r, _sb) in pl.visible_records(iso):
             if o not in got:
                 return False
     return True
